@@ -883,3 +883,127 @@ example :
          .ok { name := "a".toList, text := ("a".toList, 1), globals := [] }] := by decide
 
 end LiquidVerif.C23
+
+/-! ## a second search path / shadowing in `FileSystemLoader`, and aliasing of returned handles -/
+namespace LiquidVerif.C23
+open LiquidVerif.CacheLoader
+
+variable {σ η : Type}
+
+theorem fs2_respects (cfg : Cfg) : Respects fs2Loader cfg := by
+  intro s m m' r r' hid
+  have hn : r.name = r'.name := congrArg Prod.fst hid
+  simp only [fs2Loader, hn]
+  cases s 0 r'.name with
+  | some v => rfl
+  | none => cases s 1 r'.name <;> rfl
+
+/-- `FileSystemLoader` with two search paths: its `uptodate` is sound **while the set of names in the
+first path does not change** (`_partial`: see `fs2_sound_counterexample`) -/
+theorem fs2_sound_partial (D : Str → Prop) : UptodateSound fs2Loader (FirstHas D) := by
+  intro s s' m name ctx kw text full h mu hD hD' hsrc
+  simp only [fs2Loader] at hsrc ⊢
+  cases h0 : s 0 name with
+  | some v =>
+    rw [h0] at hsrc
+    cases hsrc
+    refine ⟨fun hu => ?_, fun e he => ?_⟩
+    · cases mu <;> cases m <;> simp only [Except.ok.injEq] at hu <;>
+        first | (rw [store_beq hu]; rfl) | cases hu
+    · cases mu <;> cases m <;> cases he
+  | none =>
+    rw [h0] at hsrc
+    simp only at hsrc
+    cases h1 : s 1 name with
+    | none => rw [h1] at hsrc; cases hsrc
+    | some v =>
+      rw [h1] at hsrc
+      cases hsrc
+      have hnot : s' 0 name = none := by
+        have : ¬ D name := fun hd => by have := (hD name).mpr hd; simp [h0] at this
+        cases hs' : s' 0 name with
+        | none => rfl
+        | some w => exact absurd ((hD' name).mp (by simp [hs'])) this
+      refine ⟨fun hu => ?_, fun e he => ?_⟩
+      · rw [hnot]
+        cases mu <;> cases m <;> simp only [Except.ok.injEq] at hu <;>
+          first | (simp only; rw [store_beq hu]; rfl) | cases hu
+      · cases mu <;> cases m <;> cases he
+
+/-- **A file appearing earlier in the search path is not picked up**: `a` is found in the second
+directory and cached; `a` is then created in the first directory; the caching loader keeps serving
+the second directory's file (its `uptodate` only stats the file that was found). -/
+theorem fs2_sound_counterexample :
+    ¬ (run fs2Loader cfgOn (Cache.empty 2) (st [(1, "a", 1)])
+          [.req (rq "a" none .sync), .store (st [(1, "a", 1), (0, "a", 2)]), .req (rq "a" none .sync)]
+        = refRun fs2Loader cfgOn (st [(1, "a", 1)])
+          [.req (rq "a" none .sync), .store (st [(1, "a", 1), (0, "a", 2)]), .req (rq "a" none .sync)]) := by
+  decide
+
+/-- when `servedCached` says so, the response **is the cache entry** (same name, text, full name and
+`uptodate`), rebound to this request's globals, and the entry stays in the cache so rebound -/
+theorem served_cached_result (L : Loader σ η) (cfg : Cfg) (c : Cache (Tpl η)) (s : σ) (r : Req)
+    (h : servedCached L cfg c s r = true) :
+    ∃ cached, find c.items (keyOf cfg r) = some cached ∧
+      getTemplate L cfg c s r =
+        (((c.getitem (keyOf cfg r)).1).mutate (keyOf cfg r) { cached with globals := globalsOf cfg r },
+          .ok { cached with globals := globalsOf cfg r }) := by
+  unfold servedCached at h
+  rw [getTemplate_eq]
+  unfold checkCacheM keyOf globalsOf
+  have hsn := getitem_snd c (cacheKey cfg r.name r.ctx r.kw)
+  rcases hgi : c.getitem (cacheKey cfg r.name r.ctx r.kw) with ⟨c1, o⟩
+  rw [hgi] at h hsn
+  simp only at h hsn
+  cases o with
+  | none => simp at h
+  | some cached =>
+    refine ⟨cached, hsn.symm, ?_⟩
+    simp only at h ⊢
+    cases har : cfg.autoReload with
+    | false => simp
+    | true =>
+      rw [har] at h
+      simp only [if_true] at h ⊢
+      cases hu : L.uptodate s r.mode cached.h with
+      | error e => rw [hu] at h; simp at h
+      | ok b =>
+        rw [hu] at h
+        cases b with
+        | false => simp at h
+        | true => rfl
+
+/-- **Aliasing of returned handles.** The caching loader hands out the cached object itself. If a
+request returned `t1` and a later request with the same key is served from the cache (auto-reload off,
+or on with an up-to-date source), then the object the first caller still holds — the cache entry — is
+afterwards bound to the *second* request's globals: it is `t1` with `globals` replaced, and it is also
+what the second caller got. (A non-caching loader builds a fresh template per request, so there an
+earlier handle keeps its globals; the property observes templates when they are returned, where the
+two agree — `globals_apply`.) -/
+theorem alias_rebinds (L : Loader σ η) (cfg : Cfg) (c : Cache (Tpl η)) (s s' : σ) (r r' : Req) (t1 : Tpl η)
+    (h1 : (getTemplate L cfg c s r).2 = .ok t1) (hkey : keyOf cfg r' = keyOf cfg r)
+    (hhit : servedCached L cfg (getTemplate L cfg c s r).1 s' r' = true) :
+    (getTemplate L cfg (getTemplate L cfg c s r).1 s' r').2 = .ok { t1 with globals := globalsOf cfg r' } ∧
+    find (getTemplate L cfg (getTemplate L cfg c s r).1 s' r').1.items (keyOf cfg r)
+      = some { t1 with globals := globalsOf cfg r' } := by
+  have hc := cached_after_ok L cfg c s r t1 h1
+  obtain ⟨cached, hf, hres⟩ := served_cached_result L cfg _ s' r' hhit
+  rw [hkey] at hf
+  unfold keyOf at hf
+  rw [hc] at hf
+  cases hf
+  rw [hres]
+  refine ⟨rfl, ?_⟩
+  simp only
+  rw [hkey]
+  apply find_mutate_self _ _ _ t1
+  rw [find_getitem_self]
+  exact hc
+
+/-- non-vacuity of `alias_rebinds`: first request with globals `{g1: 5}`, second without — the
+shared entry ends with the second request's (empty) globals -/
+example :
+    runShared dictLoader cfgOn (Cache.empty 2) (st [(0, "a", 1)])
+      [.req (rq "a" none .sync (some [(1, 5)])), .req (rq "a" none .async)] = [false, true] := by decide
+
+end LiquidVerif.C23
